@@ -11,6 +11,8 @@ import alpha
 import json
 import os
 import re
+import shutil
+import subprocess
 import sys
 
 sys.path.insert(0, os.path.dirname(os.path.abspath(__file__)))
@@ -595,7 +597,12 @@ def apply_literal_rewrites(text, fnkey, ms, out, glob):
             text = text.replace(a, b)
             out.count('%s' % (why or ('rewrite `%s`' % a)), n)
         elif scope != '*':
-            raise SpliceError('lost anchor: @rewrite `%s` not found in %s' % (a, fnkey))
+            # same token sequence in another layout (re-wrapped by a formatter)?
+            sp = find_lit_span(text, a, 0)
+            if sp is None:
+                raise SpliceError('lost anchor: @rewrite `%s` not found in %s' % (a, fnkey))
+            text = text[:sp[0]] + b + text[sp[1]:]
+            out.count('%s' % (why or ('rewrite `%s`' % a)), 1)
     return text
 
 
@@ -664,6 +671,66 @@ def rewrite_loops(body, spec, fnkey, out, bcast=None):
     return ''.join(pieces)
 
 
+_LIT_TOK = re.compile(r'[A-Za-z_][A-Za-z0-9_]*|\d[A-Za-z0-9_]*|\s+|.', re.S)
+
+
+def find_lit_span(body, lit, start=0):
+    """(start, end) of the anchor text `lit` in body at or after `start`: exact match first, then the
+    same token sequence in any layout, with the trailing commas a formatter adds before a closing
+    bracket (an anchor must survive re-wrapping).  None if absent."""
+    i = body.find(lit, start)
+    if i >= 0:
+        return i, i + len(lit)
+    toks = [t for t in _LIT_TOK.findall(lit) if not t.isspace()]
+    if not toks:
+        return None
+    parts = []
+    for a, b in zip(toks, toks[1:] + ['']):
+        parts.append(re.escape(a))
+        if re.match(r'\w', a[-1]) and b and re.match(r'\w', b[0]):
+            parts.append(r'\s+')          # two word-like tokens need a separator
+        elif b in (')', ']', '}') and a not in ('(', '[', '{', ','):
+            parts.append(r'\s*(?:,\s*)?')  # optional trailing comma
+        else:
+            parts.append(r'\s*')
+    m = re.compile(''.join(parts[:-1])).search(body, start)
+    return (m.start(), m.end()) if m else None
+
+
+def find_lit(body, lit, start=0):
+    sp = find_lit_span(body, lit, start)
+    return sp[0] if sp else -1
+
+
+def stmt_start(mask, idx):
+    """Start of the statement that contains position idx (after the previous top-level `;`, `{` or `}`)."""
+    depth = 0
+    j = idx - 1
+    while j >= 0:
+        c = mask[j]
+        if c in ')]':
+            depth += 1
+        elif c in '([':
+            if depth == 0:
+                break
+            depth -= 1
+        elif c == '}':
+            if depth == 0:
+                break
+            depth += 1
+        elif c == '{':
+            if depth == 0:
+                break
+            depth -= 1
+        elif c == ';' and depth == 0:
+            break
+        j -= 1
+    j += 1
+    while j < idx and mask[j].isspace():
+        j += 1
+    return j
+
+
 def apply_hints(body, spec, fnkey):
     if not spec:
         return body
@@ -672,12 +739,12 @@ def apply_hints(body, spec, fnkey):
         idx = -1
         start = 0
         for _ in range(n + 1):
-            idx = body.find(lit, start)
+            idx = find_lit(body, lit, start)
             if idx < 0:
                 raise SpliceError('lost anchor: @hint `%s` #%d not found in %s' % (lit, n, fnkey))
             start = idx + 1
         if where == 'before':
-            ls = body.rfind('\n', 0, idx) + 1
+            ls = stmt_start(mask, idx)
             body = body[:ls] + text + '\n' + body[ls:]
         else:
             j = find_top(mask, idx, ';}')
@@ -778,15 +845,41 @@ class Splicer:
                     self.macros[it.name] = MacroDef(it)
 
     def module_names(self):
-        src = blank_comments(open(os.path.join(self.repo, 'src', 'lib.rs')).read())
+        src = blank_comments(open(os.path.join(self.src_dir(), 'lib.rs')).read())
         mods = re.findall(r'^\s*pub\s+mod\s+([a-z0-9_]+)\s*;', src, re.M)
         names = ['lib'] + mods
         if self.modules:
             names = [n for n in names if n in self.modules]
         return names
 
+    def src_dir(self):
+        """D0: the sources are scanned from a copy normalised by rustfmt (default style, the style the
+        upstream tree is kept in and the anchors of the proof scripts are written in): layout only --
+        rustfmt never changes a token other than trailing commas.  If rustfmt is missing or rejects a
+        file the raw sources are used."""
+        if getattr(self, '_src_dir', None):
+            return self._src_dir
+        raw = os.path.join(self.repo, 'src')
+        self._src_dir = raw
+        self.fmt_note = 'raw sources (rustfmt not applied)'
+        if os.environ.get('VERIF_NO_RUSTFMT') or not shutil.which('rustfmt'):
+            return raw
+        dst = os.path.join(self.outdir, 'src_fmt')
+        shutil.rmtree(dst, ignore_errors=True)
+        shutil.copytree(raw, dst)
+        files = sorted(os.path.join(dst, f) for f in os.listdir(dst) if f.endswith('.rs'))
+        r = subprocess.run(['rustfmt', '--edition', '2021', '--config', 'skip_children=true'] + files,
+                           stdout=subprocess.PIPE, stderr=subprocess.PIPE, text=True)
+        if r.returncode != 0:
+            r = subprocess.run(['rustfmt', '--edition', '2021'] + files, stdout=subprocess.PIPE, stderr=subprocess.PIPE, text=True)
+        if r.returncode == 0:
+            self._src_dir = dst
+            self.fmt_note = 'rustfmt (default style) applied to a copy of src/ before scanning'
+            self.out.count('D0 source files normalised by rustfmt before scanning (layout only)', len(files))
+        return self._src_dir
+
     def path_of(self, mod):
-        return os.path.join(self.repo, 'src', mod + '.rs')
+        return os.path.join(self.src_dir(), mod + '.rs')
 
     def run(self):
         out = self.out
